@@ -22,7 +22,24 @@ func fullOK[T any](s *space[T], limit int) bool {
 
 func TestRoundTripPin(t *testing.T) {
 	s := pinSpace()
-	runRoundTrips(t, s, pinCodecs(), fullOK(s, 30000000))
+	all := pinCodecs()
+	if !fullOK(s, 30000000) {
+		runRoundTrips(t, s, all, false)
+		return
+	}
+	// thorough: the full product through one codec of each kind; the three
+	// remaining ways of reaching the same stored form on the 4-deviation set.
+	var core, variants []codecT[api.Pin]
+	for _, c := range all {
+		switch c.name {
+		case "dsstate-add-list", "dsstate-batching-commit-get", "dsstate-marshal-unmarshal-list":
+			variants = append(variants, c)
+		default:
+			core = append(core, c)
+		}
+	}
+	runRoundTrips(t, s, core, true)
+	runRoundTripsIn(t, "roundtrip/Pin(state-variants)", s, variants, false)
 }
 
 func TestRoundTripPinOptions(t *testing.T) {
